@@ -481,6 +481,113 @@ def check(run, F, tier):
         else:
             r9.note("%s: not decided (%s)" % (key, sorted(set(rec["undecided"]))[:2]))
 
+    # ------------------------------------------------------------------ R10: length guards are not over-strict
+    r10 = run.rule("C04-R10", "a length guard rejects only inputs the accepting path could not have read (no valid shortest input is refused)", floor=20)
+    INDEX_RE = re.compile(r"::index(_mut)?$")
+    for f in sorted(roots, key=lambda f: f["path"]):
+        if not is_decoder_ret(f) or explore.small_private_helper(f):
+            continue
+        arg_idx = [i for i in range(f["argc"]) if "[u8]" in f["locals"][i + 1]]
+        if not arg_idx:
+            continue
+        names = f.get("names", {})
+        an = names.get(str(arg_idx[-1] + 1), "arg%d" % (arg_idx[-1] + 1))
+        byref = f["locals"][arg_idx[-1] + 1].startswith("&")
+        ex = explore.Explorer(F, inline_pred=inl)
+        try:
+            ps = ex.run(f["path"])
+        except explore.ExploreError:
+            continue
+        exp = lambda t, ex=ex: conn.expand_all(ex.interned_rev, t)
+        lin = linear.Lin(exp)
+        LEN = lin.len_of(("ref", ("arg", an), ())) if byref else lin.len_of(("sym", ("arg", an)))
+        if len(LEN[0]) != 1:
+            continue
+        latom = list(LEN[0])[0]
+        okp = [p for p in ps if p.kind == "return" and p.ret and p.ret[0] == "agg" and p.ret[2] == "Ok"]
+        cutp = [p for p in ps if p.kind not in ("return", "panic", "diverge")]
+        for pe in ps:
+            if pe.kind != "return" or not (pe.ret and pe.ret[0] == "agg" and pe.ret[2] == "Err") or not pe.cons:
+                continue
+            gk = list(pe.cons)[-1]
+            gc = pe.cons[gk]
+            gf = [g for g in lin.facts_of_cons({gk: gc}) if g[0].get(latom, 0) == 1 and all(a == latom or c < 0 or True for a, c in g[0].items())]
+            if len(gf) != 1:
+                continue
+            g = gf[0]                                  # LEN - E' <= 0  : the guard refuses every input with len <= E'
+            E = linear.lin_scale(linear.lin_add(g, LEN, -1), -1)      # E' = LEN - g
+            key = "%s|%s" % (panics.short_fn(f["path"]), conn.short(("sym", gk))[:90])
+            # accepting continuations: the same atom decided the other way
+            conts = [p for p in okp if gk in p.cons and p.cons[gk] != gc]
+            if not conts or any(gk in p.cons and p.cons[gk] != gc for p in cutp):
+                continue
+            decided = True
+            need_exact = False
+            for po in conts:
+                base_facts = [x for x in lin.facts_of_cons({k: c for k, c in po.cons.items() if k != gk})]
+                # effects known to precede the guard: everything up to the last effect whose constraint snapshot lacks it
+                last_before = -1
+                for i_, e in enumerate(po.effects):
+                    snap_ = e[6] if (e[0] == "call" and len(e) > 6) else (e[5] if (e[0] in ("assert", "unwrap") and len(e) > 5) else None)
+                    if isinstance(snap_, dict) and gk not in snap_:
+                        last_before = i_
+                for i_, e in enumerate(po.effects):
+                    if e[0] != "call" or i_ <= last_before:
+                        continue
+                    ae = [exp(a) for a in e[3]]
+
+                    def slice_of_input(a, depth=0):
+                        """the input itself or a sub-slice / view of it (not a scalar computed from it)"""
+                        if depth > 8 or not isinstance(a, tuple) or not a:
+                            return False
+                        if a == latom[1] or (a[0] == "ref" and a[1] == ("arg", an)):
+                            return True
+                        if a[0] == "sym":
+                            t_ = a[1]
+                            if t_[0] == "init" and t_[1] and t_[1][0] == "D":
+                                return slice_of_input(("sym", t_[1][1]), depth + 1)
+                            if t_[0] == "call" and t_[2] and t_[1].split("::")[-1] in ("index", "index_mut", "deref", "as_ref", "as_slice", "clone", "borrow"):
+                                return slice_of_input(t_[2][0], depth + 1)
+                            if t_[0] == "arg" and t_[1] == an:
+                                return True
+                        return False
+                    touches = any(slice_of_input(a) for a in ae)
+                    if not touches:
+                        continue
+                    if INDEX_RE.search(e[1]) and len(ae) == 2:
+                        rng = ae[1]
+                        req = None
+                        if rng[0] == "agg" and rng[2] in ("Range", "RangeTo"):
+                            req = lin.of_value(rng[3][-1])
+                        elif rng[0] == "agg" and rng[2] == "RangeFrom":
+                            req = lin.of_value(rng[3][0])
+                        elif rng[0] in ("c", "sym"):
+                            req = linear.lin_add(lin.of_value(rng), linear.const(1))
+                        if req is None:
+                            decided = False
+                            break
+                        # would this access still be in bounds for the refused input of length E' ?
+                        if linear.entails(base_facts, linear.lin_add(req, E, -1)):
+                            if linear.entails(base_facts, linear.lin_add(E, req, -1)):
+                                need_exact = True
+                        else:
+                            decided = False
+                            break
+                    elif e[1].split("::")[-1] in ("len", "is_empty", "as_ptr", "clone", "deref", "as_ref", "iter", "all", "any", "copy_from_slice", "try_into",
+                                                    "from_buffer", "to_vec", "new", "from_be_bytes", "into", "from"):
+                        continue
+                    else:
+                        decided = False          # some other consumer of the input (a nested decoder): its needs are not known here
+                        break
+                if not decided:
+                    break
+            if decided and need_exact:
+                r10.violation(key, "%s refuses input whose length equals %s although every read on the accepting path stays within that length: "
+                              "a shortest valid encoding is rejected" % (panics.short_fn(f["path"]), conn.short(("sym", gk))[:120]),
+                              conn.path_summary(pe), site="%s:%s" % (f["file"], f["line"]))
+            else:
+                r10.ok(key, "tight" if decided else "followed by a consumer whose needs are not decided here")
+
     # ------------------------------------------------------------------ R2
     r2 = run.rule("C04-R2", "every loop in a decoder terminates: iterator-driven, or a cursor that strictly increases towards the input length", floor=10)
     for path, f in sorted(fns.items()):
